@@ -86,6 +86,15 @@ func loadWorld(repo, stubsDir string) (*World, error) {
 		if pkg == nil {
 			pkg = pkgByShort["dig"]
 		}
+		for _, ti := range sf.TypeInvs {
+			gt, _ := w.resolveTypeSafe(pkg, ti.Type)
+			pt, ok := gt.(*types.Pointer)
+			if !ok {
+				return nil, fmt.Errorf("%s: typeinv needs a pointer type", ti.Clause.Where)
+			}
+			k := typeKey(pt.Elem())
+			w.typeInvs[k] = append(w.typeInvs[k], &typeInvInfo{v: ti.Var, cl: ti.Clause, pkg: pkg, gt: gt})
+		}
 		for n, ls := range sf.LocSets {
 			w.locSets[n] = ls
 		}
